@@ -13,6 +13,7 @@ package c04
 import (
 	"encoding/json"
 	"fmt"
+	"math/big"
 	"strings"
 	"time"
 
@@ -278,19 +279,49 @@ func init() {
 			return
 		}
 		for _, b := range user(n.PoolBlocks()) {
-			q.AddAccountBlocks([]*nom.AccountBlock{b}) // blocks that do not apply on the other branch are simply refused
+			// blocks that do not apply on the other branch (they acknowledge the momentum it does not have) are refused there;
+			// their authors send again what a send of theirs said, acknowledging the other branch's frontier
+			if err, pan := q.AddAccountBlocks([]*nom.AccountBlock{b}); (err != nil || pan != nil) && b.BlockType == nom.BlockTypeUserSend {
+				q.Submit(&nom.AccountBlock{BlockType: nom.BlockTypeUserSend, Address: b.Address, ToAddress: b.ToAddress, TokenStandard: b.TokenStandard,
+					Amount: new(big.Int).Set(b.Amount), Data: append([]byte{}, b.Data...)})
+			}
 		}
-		if _, err := q.Produce(1); err != nil {
+		// V = 1: the other branch's pillars produce their momentums without getting to the inboxes
+		produce := func(skip int) error {
+			if o.V == 1 {
+				return q.ProduceMomentumOnly(skip)
+			}
+			_, err := q.Produce(skip)
+			return err
+		}
+		if err := produce(1); err != nil {
 			return "err:produce"
 		}
 		for _, b := range user(n.Detailed(H).AccountBlocks) {
 			q.AddAccountBlocks([]*nom.AccountBlock{b})
 		}
-		if _, err := q.Produce(0); err != nil {
+		if err := produce(0); err != nil {
 			return "err:produce"
+		}
+		// contract receives the node's pillar made on the branch that is about to be abandoned: a peer still on that branch
+		// gossips them again after the switch (they acknowledge a momentum that is no longer on the node's chain)
+		var stale []*nom.AccountBlock
+		for _, b := range n.PoolBlocks() {
+			if b.BlockType == nom.BlockTypeContractReceive {
+				stale = append(stale, vnode.CloneBlock(b))
+			}
 		}
 		if _, err, pan := n.InsertChain(vnode.CloneBatch(q.Range(H, q.Height()))); err != nil || pan != nil {
 			return "err:switch"
+		}
+		taken := 0
+		for _, b := range stale {
+			if err, pan := n.AddAccountBlocks([]*nom.AccountBlock{b}); err == nil && pan == nil {
+				taken++
+			}
+		}
+		if taken > 0 {
+			return fmt.Sprintf("ok/stale-contract-receives-taken:%d", taken)
 		}
 		return "ok"
 	}
@@ -345,6 +376,7 @@ func alphabet(thorough bool) []ops.Op {
 		{K: "CRforge", B: 0},
 		{K: "Mtwice"},
 		{K: "Reorg"},
+		{K: "Reorg", V: 1},
 	}
 	if thorough {
 		a = append(a,
